@@ -130,7 +130,7 @@ func ruleWireFields(c *Check, p *Program, rule string) {
 	// --- block checksum
 	var wSite, wAnchor *ssa.BasicBlock
 	var wPos string
-	for _, ci := range callsIn(wr) {
+	for _, ci := range callsInDeep(wr) {
 		if v := leEmits(ci, "PutUint32"); v != nil {
 			switch {
 			case derivesFromField(v, "FrameDataBlock.Checksum"):
@@ -234,6 +234,11 @@ func ruleWireFields(c *Check, p *Program, rule string) {
 	allInstrsDeep(cw, func(in ssa.Instruction) {
 		if cc, ok := isBuiltinCall(in, "append"); ok && len(cc.Args) == 2 {
 			if isFourZeros(cc.Args[1]) {
+				emSite, emPos = in.Block(), p.InstrPos(in)
+			}
+		}
+		if ci, ok := in.(ssa.CallInstruction); ok && isBinaryLE(ci, "PutUint32") {
+			if k, isK := constUint(leValueArg(ci)); isK && k == 0 {
 				emSite, emPos = in.Block(), p.InstrPos(in)
 			}
 		}
